@@ -539,3 +539,17 @@ def np_searchsorted(interp, a, v, side="left", sorter=None):
 
     flat = [one(vr(list(ix))) for ix in _it.product(*[range(d) for d in v.shape])]
     return T.from_flat(list(v.shape), flat, INT, kind="numpy")
+
+
+@lib("numpy.log2")
+def np_log2(interp, x):
+    """Concrete arguments only (configuration arithmetic): returns a numpy float scalar."""
+    import math as _m
+
+    if isinstance(x, STensor) and x.rank == 0:
+        x = x.at([])
+    if not isinstance(x, (int, float)) or isinstance(x, bool):
+        raise Unsupported("np.log2 of a symbolic value / array")
+    if x <= 0:
+        raise Unsupported("np.log2 of a non-positive value")
+    return T.from_flat([], [_m.log2(x)], FLOAT, kind="numpy")
